@@ -11,6 +11,8 @@ import sys
 HERE = os.path.dirname(os.path.dirname(os.path.abspath(__file__)))
 if HERE not in sys.path:
     sys.path.insert(0, HERE)
+if os.environ.get("VERIF_REPO") and os.path.realpath(os.environ["VERIF_REPO"]) not in sys.path:
+    sys.path.insert(0, os.path.realpath(os.environ["VERIF_REPO"]))
 
 PROP = "C08"
 TECHNIQUE = (
